@@ -1,6 +1,6 @@
 (* C19 -- texture / shape descriptors: co-occurrence counting, LBP code mapping, integral image. *)
 Require Import MV.Base.Prelude MV.Base.CInt MV.Base.Index MV.Base.BorderSpec.
-Require Import MV.Gen.Scalar_gen MV.Model.Filter MV.Model.Labeled MV.Model.Texture MV.Proof.ConvProof MV.Proof.TextureProof.
+Require Import MV.Gen.Scalar_gen MV.Model.Filter MV.Model.Labeled MV.Model.Texture MV.Proof.ConvProof MV.Proof.TextureProof MV.Proof.LbpProof MV.Proof.CoocSym.
 
 (* cooccurence counts exactly the ordered pixel pairs at the given offset, both pixels inside the image (2-D and 3-D,
    any distance / direction) *)
@@ -27,3 +27,34 @@ Theorem C19_lbp_map_is_least_rotation : forall v points,
   (forall r, In r (rotations (S (Z.to_nat points)) v points) -> lbp_map v points <= r) /\
   In (lbp_map v points) (rotations (S (Z.to_nat points)) v points).
 Proof. exact lbp_map_is_least_rotation. Qed.
+
+(* for EVERY number of points P >= 1 and every P-bit code: P rolls are the identity (rolling is a cyclic rotation of the P bits) ... *)
+Theorem C19_lbp_roll_has_period_P : forall points v, 1 <= points -> 0 <= v < 2 ^ points ->
+  rolls (Z.to_nat points) v points = v /\ 0 <= roll_right v points < 2 ^ points.
+Proof. intros points v HP Hv. split; [apply rolls_period | apply roll_range]; assumption. Qed.
+
+(* ... codes that are cyclic rotations of one another share a bin ... *)
+Theorem C19_lbp_rotated_codes_share_a_bin : forall points v k, 1 <= points -> 0 <= v < 2 ^ points ->
+  lbp_map (rolls k v points) points = lbp_map v points.
+Proof. exact lbp_map_rotation_invariant. Qed.
+
+(* ... and the bin is a rotation of the code, a P-bit code itself, and a fixed point: one bin per rotation class *)
+Theorem C19_lbp_bin_is_canonical_rotation : forall points v, 1 <= points -> 0 <= v < 2 ^ points ->
+  (exists k, lbp_map v points = rolls k v points) /\ 0 <= lbp_map v points < 2 ^ points /\
+  lbp_map (lbp_map v points) points = lbp_map v points.
+Proof. exact lbp_map_is_a_rotation. Qed.
+
+(* rotating the image by 180 degrees (any dimension: the data reversed) exchanges the two grey levels of every counted pair ... *)
+Theorem C19_cooccurence_rot180_transposes_counts : forall f delta, wf_arr f -> length delta = length (shape f) ->
+  forall a b, cooc_spec (rot180 f) delta a b = cooc_spec f delta b a.
+Proof. exact cooc_spec_rot180. Qed.
+
+(* ... so the symmetric matrix C + C^T, from which haralick computes its features, is invariant *)
+Theorem C19_symmetric_cooccurence_invariant_under_rot180 : forall f delta, wf_arr f -> length delta = length (shape f) ->
+  forall a b, cooc_spec (rot180 f) delta a b + cooc_spec (rot180 f) delta b a = cooc_spec f delta a b + cooc_spec f delta b a.
+Proof. exact cooc_sym_rot180. Qed.
+
+(* transposing a 2-D image permutes the directions: the counts at offset (dx, dy) of the transpose are those at (dy, dx) *)
+Theorem C19_cooccurence_transpose_permutes_directions : forall f h w, shape f = [h; w] -> wf_arr f ->
+  forall dy dx a b, cooc_spec (transpose2 f) [dx; dy] a b = cooc_spec f [dy; dx] a b.
+Proof. exact cooc_spec_transpose. Qed.
